@@ -195,10 +195,18 @@ def replay(ctx, rep):
         if t.died:
             return True, 'process died: %s' % t.died
         if 'liveness' in rep.get('key', ''):
+            tg.continue_fairly(s, rep['case'].get('script', []))
+            if t.died:
+                return True, 'process died: %s' % t.died
+            which = rep['case'].get('flow')
             for i, f in enumerate(t.flows):
+                if which is not None and i != which:
+                    continue
                 up, down = wrote.get((i, 'app'), b''), wrote.get((i, 'dst'), b'')
                 if f.app.eof_in and f.dst.eof_in and (f.dst.delivered != up or f.app.delivered != down):
-                    return True, 'flow %d: bytes missing at the end of the recorded schedule' % i
+                    return True, ('flow %d: bytes missing after the recorded schedule and a fair continuation '
+                                  '(dst got %d of %d, app got %d of %d)' % (i, len(f.dst.delivered), len(up),
+                                                                           len(f.app.delivered), len(down)))
         if 'destination-form' in rep.get('key', ''):
             for i, f in enumerate(t.flows):
                 if not f.s_ever:
